@@ -82,7 +82,9 @@ def run(ctx, scope="all"):
                                "by dominance; narrowing casts of operand values have no admissible row")
     lib = ctx.facts.lib
     table = load_table("casts.tsv")
-    seen = {}
+    from ..owners import for_crate
+    own = for_crate(lib)
+    used = {}
     n = 0
     for b in lib.bodies.values():
         for i, s in b.assigns():
@@ -92,20 +94,24 @@ def run(ctx, scope="all"):
             if rv["o"].get("k") == "const":
                 continue        # conversion of a literal (e.g. the shift-amount check rustc emits for `x >>= 1`)
             n += 1
-            k = "%s|%s|%s->%s" % (b.id, rv["kind"], rv["src"], rv["dst"])
-            seen[k] = seen.get(k, 0) + 1
-            key = "cast:" + k
-            row = table.get(k)
+            owners = sorted(own.of(b.id))
+            suffix = "%s|%s->%s" % (rv["kind"], rv["src"], rv["dst"])
+            keys = ["%s|%s" % (o, suffix) for o in owners]
+            key = "cast:" + keys[0]
             where = b.where(s.get("line"))
-            if row is None:
+            rows = [table.get(k) for k in keys]
+            if any(r is None for r in rows):
                 res.bad(key, "unreviewed numeric cast %s -> %s in %s (may truncate, wrap or change sign of an operand value)"
                         % (rv["src"], rv["dst"], b.id), where)
                 continue
-            count, cls, reason = int(row[0]), row[1], row[2] if len(row) > 2 else ""
-            if seen[k] > count:
-                res.bad(key, "%d casts %s -> %s in %s, table allows %d" % (seen[k], rv["src"], rv["dst"], b.id, count), where)
+            for k in keys:
+                used[k] = used.get(k, 0) + 1
+            over = [k for k, r in zip(keys, rows) if used[k] > int(r[0])]
+            if over:
+                res.bad(key, "%d casts %s -> %s charged to %s, table allows %s" % (used[over[0]], rv["src"], rv["dst"], over[0].split("|")[0], table[over[0]][0]), where)
                 continue
-            if cls == "nonneg":
+            cls, reason = rows[0][1], rows[0][2] if len(rows[0]) > 2 else ""
+            if any(r[1] == "nonneg" for r in rows):
                 if BITS.get(rv["dst"], 0) < 63:
                     res.bad(key, "cast %s -> %s keeps only %d bits: a sign test cannot make it exact" % (rv["src"], rv["dst"], BITS.get(rv["dst"], 0)), where)
                 elif nonneg_guarded(b, i, op_local(rv["o"])):
